@@ -168,7 +168,11 @@ func runCheck(args []string) int {
 			defer wg.Done()
 			sem <- struct{}{}
 			defer func() { <-sem }()
+			t1 := time.Now()
 			resCh[i] = solveVC(vc, solveOpts{timeoutMs: timeout})
+			if os.Getenv("MQVC_TIMING") != "" {
+				fmt.Fprintf(os.Stderr, "timing %6.1fs %5d obligations %s\n", time.Since(t1).Seconds(), len(resCh[i]), shortFuncName(vc.root.String()))
+			}
 		}(i, vc)
 	}
 	wg.Wait()
